@@ -21,8 +21,9 @@ def jobs(tier):
     fam_quick = [("y", 12), ("b", 12), ("n", 12), ("q", 12), ("i", 12), ("u", 12), ("h", 12), ("x", 16), ("t", 16), ("d", 16),
                  ("s", 12), ("o", 12), ("g", 10), ("yu", 12), ("us", 12), ("sy", 12), ("ay", 12), ("ab", 12), ("au", 12), ("an", 12), ("at", 16),
                  ("(yu)", 12), ("(sy)", 12), ("as", 9), ("ao", 9), ("a{ys}", 9), ("a(yy)", 10), ("aay", 9)]
-    fam_thorough = [("ag", 6), ("v", 7), ("as", 12), ("ao", 12), ("a{ys}", 12), ("a{su}", 12), ("aay", 12), ("aau", 10), ("yv", 9), ("a(yv)", 9), ("(ys)", 14),
-                    ("a{sv}", 9), ("yyyyuua(yv)", 20), ("su", 16), ("ss", 14), ("(u(yy))", 16), ("a(us)", 12)]
+    # thorough-only shapes: each one was decided within its cap with 8 jobs in parallel on the 62 GB sandbox; the shapes tried and dropped
+    # (no verdict: ag N>=6, symbolic-signature variants v/yv/a(yv)/a{sv} N>=7, aay N12, aau N>=10, a{su} N12) are listed in DESIGN.md
+    fam_thorough = [("as", 12), ("ao", 12), ("a{ys}", 12), ("a(us)", 12), ("su", 16), ("ss", 14), ("(u(yy))", 16), ("(ys)", 14), ("a{su}", 9), ("aau", 8)]
     for fam, tiers in ((fam_quick, ("quick", "thorough")), (fam_thorough, ("thorough",))):
         for sig, n in fam:
             heavy = any(c in sig for c in "v") or sig.startswith("aa") or sig in ("as", "ao", "ag", "a{ys}", "a{su}", "a{sv}", "a(us)")
@@ -36,7 +37,7 @@ def jobs(tier):
                          bounds=f"signature '{sig}' (concrete), every body of 0..{n} arbitrary bytes, both byte orders; loops unwound {n+3}, validator recursion <= 4 (unwinding assertions on)",
                          shape=f"body of signature {sig}", cost=(50 if heavy else 1) + n))
     # VARIANT bodies, split by the (concrete) contained signature
-    for vsig, n, vt in (("y", 10, 0), ("u", 12, 0), ("s", 12, 0), ("ay", 12, 0), ("(yy)", 10, 1), ("v", 6, 1)):
+    for vsig, n, vt in (("y", 10, 0), ("u", 12, 0), ("s", 12, 0), ("ay", 12, 0), ("(yy)", 8, 1), ("v", 5, 1)):
         J.append(Job(name=f"b.body.v[{vsig}].N{n}", group="C01.b", harness="harness/C01_body.c", defines={"SIG": '"v"', "N": n, "VSIG": '"' + vsig + '"'},
                      real=BODY_REAL, env=ENV + ["list_lifo.c"], unwind=n + 3, unwindset=["validate_body_helper:4", "ref_value:4"], timeout=3600 if vt else 600, mem_gb=16,
                      tiers=("thorough",) if vt else ("quick", "thorough"), ignore=ART, termination_is_property=True, encodes=["validate_body_helper (VARIANT branch)", "_dbus_type_reader_init_types_only"],
